@@ -129,3 +129,14 @@ Print Assumptions C07_reconciliation_from_rows.
 Print Assumptions C07_unsold_is_sum_of_remainders.
 Print Assumptions C07_reconciliation_dust_refuted.
 Print Assumptions C07_reconciliation_needs_consistent_outs.
+
+(** Source tie (regenerated on every run).  [balances_gen] (Model/BalanceGen.v) executes the update program the translator
+    reads from balance.py's replay loop (Model/GeneratedTie.v: concatenation order, the cut and its break, per transaction
+    class the stores to the four dictionaries in source order, the negative-balance test) on the same state; it is the
+    hand-written [balances] the theorems above are about.  An edit of balance.py that changes the meaning of the program
+    makes this theorem stop compiling (Proofs/BalanceGenProofs.v, Proofs/BalanceGenReplay.v). *)
+From RP2V Require Import Model.GeneratedTie Model.BalanceGen Proofs.BalanceGenReplay.
+Theorem C07_source_tie_balance_replay :
+  forall (allow : bool) (to_day : Z) (exs hos : list str) (t : txs), balances_gen allow to_day exs hos t = balances allow to_day exs hos t.
+Proof. exact balances_gen_agrees. Qed.
+Print Assumptions C07_source_tie_balance_replay.
